@@ -190,9 +190,8 @@ Definition sig_args_ok (sg : fsig) (args : list ty) : bool :=
 
 (* ---------- static environments ---------- *)
 Definition sframe := list (str * ty).
-(* a frame and whether it is the frame of a `for` statement: the evaluator keeps
-   that frame across iterations, so a declaration in it must not shadow *)
-Definition tyenv := list (bool * sframe).
+(* innermost frame first; the last frame is the global one *)
+Definition tyenv := list sframe.
 
 Fixpoint sget (n : str) (f : sframe) : option ty :=
   match f with [] => None | (k, t) :: r => if str_eqb k n then Some t else sget n r end.
@@ -200,7 +199,7 @@ Fixpoint sget (n : str) (f : sframe) : option ty :=
 Fixpoint slookup (n : str) (G : tyenv) : option ty :=
   match G with
   | [] => None
-  | (_, f) :: r => match sget n f with Some t => Some t | None => slookup n r end
+  | f :: r => match sget n f with Some t => Some t | None => slookup n r end
   end.
 
 Definition is_some {A} (o : option A) : bool := match o with Some _ => true | None => false end.
@@ -336,13 +335,7 @@ Definition range_var_ty (t : ty) : option ty :=
   | _ => None
   end.
 
-Definition push (G : tyenv) : tyenv := (false, []) :: G.
-
-(* the frame of a `for` statement survives from one iteration to the next, so
-   a name declared in it is still bound when the body starts again: it may
-   shadow an outer variable only at the same type *)
-Definition shadow_ok (n : str) (t : ty) (G : tyenv) : bool :=
-  match slookup n G with Some t' => ty_eqb t' t | None => true end.
+Definition push (G : tyenv) : tyenv := [] :: G.
 
 Fixpoint wt_stmt (F : list funcdef) (ret : option ty) (inloop : bool) (G : tyenv) (s : stmt) {struct s}
   : option tyenv :=
@@ -354,10 +347,10 @@ Fixpoint wt_stmt (F : list funcdef) (ret : option ty) (inloop : bool) (G : tyenv
   match s with
   | SDecl n t e =>
       match G with
-      | (isfor, fr) :: G' =>
-          if binder_ok n && negb (is_some (sget n fr)) && (negb isfor || shadow_ok n t G')
+      | fr :: G' =>
+          if binder_ok n && negb (is_some (sget n fr))
              && ty_decl t && opt_ty_eqb (ety F G e) t
-          then Some ((isfor, (n, t) :: fr) :: G') else None
+          then Some (((n, t) :: fr) :: G') else None
       | [] => None
       end
   | SAssign target e =>
@@ -403,11 +396,11 @@ Fixpoint wt_stmt (F : list funcdef) (ret : option ty) (inloop : bool) (G : tyenv
       | None => None
       | Some t =>
           let G2 := match var with
-                    | Some v => if binder_ok v && ty_eqb vt t && ty_decl vt then Some ((true, [(v, vt)]) :: G) else None
-                    | None => Some ((true, []) :: G)
+                    | Some v => if binder_ok v && ty_eqb vt t && ty_decl vt then Some ([(v, vt)] :: G) else None
+                    | None => Some ([] :: G)
                     end in
           match G2 with
-          | Some G2 => if is_some (wt_stmts true G2 body) then Some G else None
+          | Some G2 => if is_some (wt_stmts true (push G2) body) then Some G else None
           | None => None
           end
       end
@@ -456,7 +449,7 @@ Definition wt_func (F : list funcdef) (globals : sframe) (fd : funcdef) : bool :
   && (match fn_variadic fd with Some _ => match ps with [] => true | _ => false end | None => true end)
   && (is_none (fn_ret fd) || ty_decl (fn_ret fd))
   && negb (is_some (builtin_sig (fn_name fd)))
-  && is_some (wt_stmts F (Some (fn_ret fd)) false [(false, params_frame (ps ++ vp)); (false, globals)] (fn_body fd))
+  && is_some (wt_stmts F (Some (fn_ret fd)) false [params_frame (ps ++ vp); globals] (fn_body fd))
   && (is_none (fn_ret fd) || always_returns (fn_body fd)).
 
 Definition event_sigs : list (str * list ty) := Eval compute in
@@ -477,13 +470,13 @@ Definition wt_handler (F : list funcdef) (globals : sframe) (h : handler) : bool
   | Some ts =>
       (match h_params h with [] => true | ps => tys_eqb (map snd ps) ts end)
       && forallb param_ok (h_params h) && names_distinct (map fst (h_params h))
-      && is_some (wt_stmts F (Some TNone) false [(false, params_frame (h_params h)); (false, globals)] (h_body h))
+      && is_some (wt_stmts F (Some TNone) false [params_frame (h_params h); globals] (h_body h))
   end.
 
 (* the final global frame when the top-level statements check *)
 Definition wt_top (P : program) : option sframe :=
-  match wt_stmts (p_funcs P) None false [(false, global_frame0)] (p_stmts P) with
-  | Some [(_, g)] => Some g
+  match wt_stmts (p_funcs P) None false [global_frame0] (p_stmts P) with
+  | Some [g] => Some g
   | _ => None
   end.
 
@@ -668,7 +661,7 @@ Fixpoint why_stmts (fuel : nat) (F : list funcdef) (ret : option ty) (inloop : b
                   match first_why F (push G) (stmt_exprs s) with
                   | Some w => ("for/" ++ w)%string
                   | None =>
-                      let G2 := match var with Some v => (true, [(v, vt)]) :: G | None => (true, []) :: G end in
+                      let G2 := push (match var with Some v => [(v, vt)] :: G | None => [] :: G end) in
                       match block true G2 b with
                       | Some w => if str_eqb (s_ w) (s_ "none") then "for" else w
                       | None => "for"
@@ -681,14 +674,14 @@ Fixpoint why_stmts (fuel : nat) (F : list funcdef) (ret : option ty) (inloop : b
   end.
 
 Definition why_program (P : program) : string :=
-  match wt_stmts (p_funcs P) None false [(false, global_frame0)] (p_stmts P) with
-  | None => why_stmts 1000 (p_funcs P) None false [(false, global_frame0)] (p_stmts P)
-  | Some [(_, g)] =>
+  match wt_stmts (p_funcs P) None false [global_frame0] (p_stmts P) with
+  | None => why_stmts 1000 (p_funcs P) None false [global_frame0] (p_stmts P)
+  | Some [g] =>
       match find (fun fd => negb (wt_func (p_funcs P) g fd)) (p_funcs P) with
       | Some fd =>
           let ps := fn_params fd in
           let vp := match fn_variadic fd with Some (n, t) => [(n, TArr t)] | None => [] end in
-          let G0 := [(false, params_frame (ps ++ vp)); (false, g)] in
+          let G0 := [params_frame (ps ++ vp); g] in
           match wt_stmts (p_funcs P) (Some (fn_ret fd)) false G0 (fn_body fd) with
           | None => ("func/" ++ why_stmts 1000 (p_funcs P) (Some (fn_ret fd)) false G0 (fn_body fd))%string
           | Some _ => "func-signature"%string
